@@ -49,6 +49,7 @@ def run(c):
                      "allocations above 16 MiB throw std::bad_alloc in the recorder (resource limit; the valid files are tiny)",
                      "the binary CRS format stores no column count: a returned column index is only required to be >= 0",
                      "UBSan checks 'null' and 'pointer-overflow' are off: &v[0] of an empty std::vector is not reported",
+                     "recorders are OpenMP builds run with OMP_NUM_THREADS=1 (fork per case); std::terminate in a child = crash",
                      "single-byte faults and truncations only; TLC, CommunityModules Json, g++/clang/libstdc++ are trusted"]
     th = c.thorough()
     env = {"TMPDIR": "/dev/shm"} if os.path.isdir("/dev/shm") and os.access("/dev/shm", os.W_OK) else {}
@@ -67,8 +68,10 @@ def run(c):
 
     def stage_a():
         return c.parallel([
-            lambda: c.build("record_io", ["record_io.cpp"], omp=False),
-            lambda: c.build("record_io_san", ["record_io.cpp"], omp=False, san="address,undefined", flags=SAN_FLAGS),
+            # built WITH -fopenmp (the readers have `#pragma omp parallel for` loops: an exception thrown inside one
+            # is std::terminate even with one thread); the sweeps run with OMP_NUM_THREADS=1 (no threads at fork time)
+            lambda: c.build("record_io", ["record_io.cpp"], omp=True),
+            lambda: c.build("record_io_san", ["record_io.cpp"], omp=True, san="address,undefined", flags=SAN_FLAGS),
             lambda: none if skip_models else model("MMModel", mmc, True, 8),
             lambda: none if skip_models else model("BinModel", binc, True, 6),
         ])
